@@ -718,7 +718,7 @@ pub fn c10(tier: Tier) -> Vec<Scenario> {
 pub fn c16(tier: Tier) -> Vec<Scenario> {
     let mut out = vec![];
     let extras = ["none", "ctrl", "opts", "timeout"];
-    let cookies = [CookieStyle::Distinct, CookieStyle::Constant, CookieStyle::EmptyFirst, CookieStyle::TailLooksEmpty];
+    let cookies = [CookieStyle::Distinct, CookieStyle::Constant, CookieStyle::EmptyFirst, CookieStyle::TailLooksEmpty, CookieStyle::WithEstimate];
     let mut k = 0usize;
     for n in 0..=5usize {
         for p in 1..=3i32 {
